@@ -19,10 +19,10 @@ Definition rx_new := SList [LInt 2002; LInt 2001; LInt 2005; LInt 2001].
 
 Example rx_reindex_defaults :
   option_map (@c_vars cell) (match reindex_M no_pandas no_contains cast_tbl rx_state rx_new 9 PNone None [] 100 with Ret s => Some s | Raise _ => None end)
-  = Some [("F", mkSeries DFloat 101 [CF FNan; CF (FNum (-4)); CF FNan; CF (FNum (-4))]);
-          ("I", mkSeries DInt 102 [CI 0; CI (-4); CI 0; CI (-4)]);
-          ("B", mkSeries DBool 103 [CB true; CB false; CB false; CB false]);
-          ("S", mkSeries (DStr 2) 104 [CS ""; CS "qq"; CS ""; CS "qq"])].
+  = Some [("F", mkSeries DFloat 102 [CF FNan; CF (FNum (-4)); CF FNan; CF (FNum (-4))]);
+          ("I", mkSeries DInt 103 [CI 0; CI (-4); CI 0; CI (-4)]);
+          ("B", mkSeries DBool 104 [CB true; CB false; CB false; CB false]);
+          ("S", mkSeries (DStr 2) 105 [CS ""; CS "qq"; CS ""; CS "qq"])].
 Proof. vm_compute. reflexivity. Qed.
 
 (* per-variable keyword beats fill_value beats the dtype default; str fills are cut to the series' width *)
@@ -70,25 +70,35 @@ Proof. vm_compute. reflexivity. Qed.
 Example rx_unsolved_value : unsolved_value = "-".
 Proof. reflexivity. Qed.
 
-(* ---------- refutations: the guards of reindex_shares_nothing are needed ---------- *)
-(* object-dtype cells are copied by reference: a tracer-extended model shares its Trace objects with the result *)
+(* ---------- since fixes 28b2a9a / af303e7: object cells are deep-copied and the span object is copied ---------- *)
+(* a tracer-extended model: the Trace objects held by the result are new objects (identities from the allocator), one per carried cell *)
 Definition rx_traced : cst :=
   mkC rx_old 0 [("trace", mkSeries DObj 1 [CO 71; CO 72; CO 73]); ("Y", mkSeries DFloat 2 [CF (FNum 0); CF (FNum 3); CF (FNum 5)])] [] false.
-Theorem reindex_fresh_object_cells_refuted :
-  exists st st', wf st /\ (forall id, In id (ids st) -> id < 100) /\ ~ In 9 (ids st)
-    /\ reindex_M no_pandas no_contains cast_tbl st (SRange 2001 1 3) 9 PNone None [] 100 = Ret st'
-    /\ exists id, In id (ids st') /\ In id (ids st).
+Example rx_traced_deep_copied :
+  option_map (fun s => (c_span_id s, map (fun kv => (s_id (snd kv), s_data (snd kv))) (c_vars s)))
+             (match reindex_M no_pandas no_contains cast_tbl rx_traced (SRange 2001 1 3) 9 PNone None [] 100 with Ret s => Some s | Raise _ => None end)
+  = Some (100, [(101, [CO 103; CO 104; CV PNone]); (102, [CF (FNum 3); CF (FNum 5); CF FNan])]).
+Proof. vm_compute. reflexivity. Qed.
+(* the hypotheses of reindex_shares_nothing are satisfiable (and its conclusion holds on this instance: nothing is shared) *)
+Example rx_traced_wf : wf rx_traced.
+Proof. repeat constructor. Qed.
+Example rx_traced_obj_typed : obj_typed rx_traced.
+Proof. repeat constructor; simpl; intros H; try reflexivity; congruence. Qed.
+Example rx_traced_ids_below : forall id, In id (ids rx_traced) -> id < 100.
+Proof. intros id H. vm_compute in H. intuition lia. Qed.
+Example rx_cast_tbl_no_objects : forall n dt v id, cast_tbl n dt v <> Ret (CO id).
 Proof.
-  exists rx_traced. eexists. split; [repeat constructor|]. split.
-  - intros id H. vm_compute in H. intuition lia.
-  - split; [vm_compute; intuition lia|]. split; [vm_compute; reflexivity|].
-    exists 72. split; vm_compute; tauto.
+  intros n dt v id. unfold cast_tbl. destruct dt, v; simpl; try discriminate;
+    repeat (match goal with
+            | |- context [match ?x with _ => _ end] => destruct x
+            end; try discriminate).
 Qed.
-(* the result adopts the caller's span object: passing the original's own span object shares it *)
-Theorem reindex_same_span_object_refuted :
-  exists st st', reindex_M no_pandas no_contains cast_tbl st (c_span st) (c_span_id st) PNone None [] 100 = Ret st'
-    /\ In (c_span_id st') (ids st).
-Proof. exists rx_state. eexists. split; [vm_compute; reflexivity | vm_compute; tauto]. Qed.
+(* passing the original's own span object: the result holds a copy (a new identity), not that object *)
+Example rx_same_span_object_copied :
+  option_map (@c_span_id cell)
+             (match reindex_M no_pandas no_contains cast_tbl rx_state (c_span rx_state) (c_span_id rx_state) PNone None [] 100 with Ret s => Some s | Raise _ => None end)
+  = Some 100 /\ ~ In 100 (ids rx_state).
+Proof. split; [vm_compute; reflexivity | vm_compute; intuition lia]. Qed.
 
 (* ---------- the pandas mixin with default arguments (finding #11) ----------
    Series.reindex fills new periods with NaN whatever the dtype, and the casting assignment turns NaN into
